@@ -419,7 +419,14 @@ func runCtrlScenario(t *testing.T, tr *tracer, idx int, seed uint64, mode string
 				w.step("settle-relist", func() { w.advance(w.period + w.period/6 + w.srv.ListLatency) })
 			}
 		}
-		if r.Chance(1, 2) {
+		if ws := w.srv.LiveWatches(); len(ws) > 0 && r.Chance(1, 4) && !isClosed(root.Done()) {
+			// the stream ends, and the shutdown arrives at the very instant the reconnect timer fires
+			tr.line(kv.L("inject", "close"))
+			ws[len(ws)-1].CloseStream()
+			time.Sleep(kcache.VerifWatchRetryDelay)
+			tr.line(kv.L("cancel"))
+			w.cancel()
+		} else if r.Chance(1, 2) {
 			tr.line(kv.L("closeroot"))
 			closed := make(chan struct{})
 			go func() { root.Close(); close(closed) }()
